@@ -349,6 +349,19 @@ def gen_start(rnd, idx, tier):
                     expect={"reqs": reqs, "others": others})
 
 
+def gen_start_invalid(rnd, idx, tier):
+    """K concurrent Start calls presenting one id that is no longer valid (SessionExpiry = 0): one of them destroys it, the others find
+    nothing and create their own session; the per-id lock must still serialise them"""
+    reqs = rnd.randint(3, 12 if tier == "thorough" else 6)
+    lines = ["mode start", "procs %d" % rnd.choice([1, 2, 4]), "seed %d" % rnd.randrange(1 << 30), "yield %d" % rnd.choice([0, 300]),
+             "reqs %d" % reqs, "others %d" % rnd.choice([0, 1]), "create 1", "cfg sessionExpiry 0", "cfg maxCache %d" % rnd.choice([0, -1, 1]),
+             "tuning %d %d %d" % (BIGSIZE, BIG, BIG), "storedelay %d" % rnd.choice([3, 10, 10]), "watchdog %d" % 1000000]
+    if rnd.random() < 0.5:
+        lines.append("stagger %d" % rnd.choice([1, 7]))
+    return Scenario("inv%05d" % idx, "concurrent-start-invalid", lines, mode="start", timing=False,
+                    expect={"reqs": reqs, "others": 0, "invalid": True})
+
+
 def scenarios(seed, tier, prop):
     rnd = random.Random(seed * 1000003 + 13)
     if tier == "quick":
@@ -362,6 +375,8 @@ def scenarios(seed, tier, prop):
         out.append(gen_random(rnd, i, tier))
     for i in range(n_start):
         out.append(gen_start(rnd, i, tier))
+    for i in range(max(20, n_start // 4)):
+        out.append(gen_start_invalid(rnd, i, tier))
     return out
 
 
@@ -769,6 +784,8 @@ def analyse_start(o):
         nm = sum(len(mints[r]) for r in rs)
         st["ids-minted-per-due-id=%d" % nm] += 1
         done = [r for r in rs if r in results]
+        if (o.scen.expect or {}).get("invalid"):
+            continue  # nothing is due here: only the serialisation of the requests is judged
         if len(done) == len(rs) and nm != 1:
             F.append(("C04", "start-mint", "%d concurrent requests presenting the due id #%d minted %d new ids (exactly one is expected)" % (len(rs), k, nm)))
         sids = set(results[r][1] for r in done if results[r][0] == "sess")
